@@ -293,6 +293,10 @@ def fired(run, trace):
                     out["read_first_touch_" + route] = out.get("read_first_touch_" + route, 0) + 1
         if isinstance(trace["outcomes"][i], list) and trace["outcomes"][i][:1] == ["E"]:
             out["op_raised"] = out.get("op_raised", 0) + 1
+            if ev[0] == "calc" and ev[2] in ("nscat", "nsld", "xsld") and (ev[4] is None or (len(ev) > 5 and ev[5] == 0.0)):
+                out["calc_failed_part_way"] = out.get("calc_failed_part_way", 0) + 1
+        if ev[0] == "calc" and ev[2] == "new_isotope" and before is not None and len(pending_groups(before)) < len(E.LAZY_GROUPS):
+            out["isotope_added_after_first_touch"] = out.get("isotope_added_after_first_touch", 0) + 1
         if ab is not None:
             prev[nid] = ab
     return out
